@@ -166,6 +166,7 @@ def run_property(prop, tier, seed, model_cfgs_quick, model_cfgs_thorough, trace_
     """Generic BFT property check: TLC on the system model + random driver traces validated by TLC."""
     t0 = time.time()
     cfgs = model_cfgs_quick if tier == "quick" else model_cfgs_thorough
+    extra_cov = extra(prop, tier, seed) if extra else {}     # cheap function-level tables first
     mres = model(prop, cfgs, timeout=model_timeout_quick if tier == "quick" else model_timeout_thorough)
     runs = run_random(prop, seed, tier, suffix=suffix)
     scn_runs = run_scenarios(prop)
@@ -176,7 +177,6 @@ def run_property(prop, tier, seed, model_cfgs_quick, model_cfgs_thorough, trace_
                 f"materialised / {c.get('outcome_differs',0)} outcome(s) differ (conformance itself is decided by trace validation)")
     runs = runs + scn_runs
     cnt = counters(runs)
-    extra_cov = extra(prop, tier, seed) if extra else {}
     viol = 0
     try:
         driver_failures(prop, runs, driver_keys)
